@@ -315,6 +315,18 @@ pub fn is_first_child(index: u64, resolution: Option<i32>) -> bool {
     (index & s_mask) == 0
 }
 
+/// Sort key under which siblings are adjacent at every resolution. Numeric ID order has this
+/// property from the quintant level down, but a resolution 0 ID (face << 58 | marker) sorts between
+/// the quintant IDs ((5 * face + n) << 58 | marker) of *other* faces. Keying a resolution 0 cell by
+/// its own first quintant code puts it where its quintants would be.
+pub fn get_hierarchy_sort_key(index: u64) -> u64 {
+    if get_resolution(index) == 0 {
+        ((index >> HILBERT_START_BIT) * 5) << HILBERT_START_BIT | (index & REMOVAL_MASK)
+    } else {
+        index
+    }
+}
+
 /// Difference between two neighbouring sibling cells at a given resolution
 pub fn get_stride(resolution: i32) -> u64 {
     // Both level 0 & 1 just write values 0-11 or 0-59 to the first 6 bits
